@@ -107,6 +107,10 @@ def small_case(draw):
             for f in flds:
                 if f['name'] in ('sk1', 'sk2', 'tk1', 'tk2', 'zk1', 'ak2'):
                     r[f['name']] = draw(_keyvals(f['type']))
+                    if kform == 'list' and nk == 2 and isinstance(r[f['name']], str):
+                        # how the values of a LIST key are combined is not documented: values are chosen so that distinct
+                        # value tuples stay distinct however they are joined (format-string keys spell their rendering out)
+                        r[f['name']] = r[f['name']].replace(':', ';')
                     if kform == 'fmt-spec' and r[f['name']] is None:
                         r[f['name']] = 7
                 elif f['name'] == 't_own':
